@@ -623,8 +623,45 @@ func (x *c10ctx) checkLoops(f *ssa.Function, rule string) {
 					if !h.Dominates(h.Preds[i]) {
 						continue
 					}
-					if bo, ok := e.(*ssa.BinOp); ok && bo.Op == token.ADD && (bo.X == ssa.Value(ph) || bo.Y == ssa.Value(ph)) {
-						x.c.Bad(rule, fn, construct+":quadratic", "a string is built by repeated concatenation inside a loop that runs once per element of its input: the work is quadratic in the input length (minutes for a 1 MiB request field)", x.w.InstrPos(bo))
+					// the value carried round the loop is a concatenation one of whose pieces is the carried string
+					// itself or a slice of it (s += x; s = s[:i] + x + s[i+1:]), possibly only on some iterations
+					var concat *ssa.BinOp
+					seenV := map[ssa.Value]bool{}
+					var uses func(v ssa.Value, inConcat bool) bool
+					uses = func(v ssa.Value, inConcat bool) bool {
+						if seenV[v] && !inConcat {
+							return false
+						}
+						seenV[v] = true
+						switch y := v.(type) {
+						case *ssa.Phi:
+							if y == ph {
+								return inConcat
+							}
+							if !body[y.Block()] {
+								return false
+							}
+							for _, e2 := range y.Edges {
+								if uses(e2, inConcat) {
+									return true
+								}
+							}
+						case *ssa.BinOp:
+							if y.Op == token.ADD {
+								if uses(y.X, true) || uses(y.Y, true) {
+									if concat == nil {
+										concat = y
+									}
+									return true
+								}
+							}
+						case *ssa.Slice:
+							return inConcat && uses(y.X, true)
+						}
+						return false
+					}
+					if uses(e, false) && concat != nil {
+						x.c.Bad(rule, fn, construct+":quadratic", "a string is built by repeated concatenation inside a loop that runs once per element of its input: the work is quadratic in the input length (minutes for a 1 MiB request field)", x.w.InstrPos(concat))
 					}
 				}
 			}
@@ -733,6 +770,19 @@ func runC10(c *Check, w *World) {
 							continue
 						}
 						for _, name := range table {
+							sz, ok := hashSizes[name]
+							note(sz, ok)
+							if !ok {
+								unknown = true
+							}
+						}
+					case macT.Op == "call" && macT.Sym == "crypto/hmac.New" && len(macT.Args) == 2 && macT.Args[0].Op == "index":
+						// a local array literal of hash constructors indexed by the algorithm
+						lt, _ := localFuncArray(tb, f, macT.Args[0])
+						if len(lt) == 0 {
+							unknown = true
+						}
+						for _, name := range lt {
 							sz, ok := hashSizes[name]
 							note(sz, ok)
 							if !ok {
